@@ -4,12 +4,12 @@ from __future__ import annotations
 import ast
 from typing import Any
 
-from ..astutil import call_name, cfg_of, norm, short, stmt_calls, where
-from ..cfg import CFG, ENTRY, EXIT
+from ..astutil import bool_atoms, call_name, cfg_of, constructs_error, norm, short, stmt_calls, truth_table, where
+from ..cfg import CFG, ENTRY, EXIT, walk_own
 from ..charclass import S, members
 from ..core import PKG, Report
 from ..domain import CONFIG, CONST, ENUM, IDENT, NUM, WORD
-from .effects import effect_sites
+from .effects import callee_of, effect_sites, operand_av, performing
 
 LEVEL = ("effect analysis: every filesystem/process effect site of the package is enumerated; its path operand (string "
          "structure from the abstract interpreter) must be project_dir/package_dir joined with literal or sanitised components, "
@@ -29,8 +29,8 @@ def run(rep: Report, ctx: Any) -> str:
                       "contain no path separator / NUL and results cannot be '.' or '..'; post-hooks run with cwd=project_dir")
     rep.rule("R19.2", "no effect before the existing-directory decision; the decision returns an error unless config.overwrite; "
                       "the --overwrite flag reaches Config.overwrite unmodified")
-    rep.rule("R19.3", "models/ and api/ are removed on every path before being rebuilt; every other written file has a "
-                      "document-independent name")
+    rep.rule("R19.3", "models/ and api/ are removed on every path before being rebuilt; nothing but these rebuilt directories (or paths "
+                      "below them) is ever removed or moved; every other written file has a document-independent name")
     rep.assumptions += ["--output-path, project/package name overrides and the working directory are the user's own (CONFIG)",
                         "post-hook commands come from the configuration"]
     cfgs: dict[str, CFG] = {}
@@ -38,11 +38,20 @@ def run(rep: Report, ctx: Any) -> str:
     # keep only effects whose operand is a path / process (drop str.replace & co.)
     real = []
     for e in effs:
-        av = it.node_av.get(id(e.target)) if e.target is not None else None
+        av = operand_av(it, e.target)
         if e.what in ("replace", "rename") and (av is None or "Path" not in av.types):
             continue
         real.append((e, av))
-    rep.floor("effect_sites", len(real), 20)
+    # the floor counts destinations (kind of effect + structure of its path: literal text, a mark per computed component), not
+    # syntactic sites: one helper writing for several callers, or several sites writing the same kind of file, are one destination
+    def _dest(e: Any, av: Any) -> tuple:
+        if av is None or not av.alts:
+            return (e.what, norm(e.target) if e.target is not None else "")
+        return (e.what, tuple(sorted("".join(p.text if p.kind == "lit" else "{}" for p in alt[1:]) for alt in av.alts)),
+                tuple(sorted({alt[0].text.rsplit(".", 1)[-1] for alt in av.alts if alt})))
+
+    rep.indexed["effect_sites"] = len(real)
+    rep.floor("effect_destinations", len({_dest(e, av) for e, av in real}), 20)
     proj = ix.cls("Project")
     for e, av in real:
         key = f"{short(e.func)}::{e.what}({norm(e.target)[:50] if e.target is not None else ''})"
@@ -147,8 +156,14 @@ def run(rep: Report, ctx: Any) -> str:
     for h in tr.handlers:
         if h.type is not None and "FileExistsError" in norm(h.type):
             for n in ast.walk(h):
-                if isinstance(n, ast.If) and "overwrite" in norm(n.test) and isinstance(n.test, ast.UnaryOp) and \
-                        any(isinstance(r, ast.Return) and "GeneratorError" in norm(r) for r in n.body):
+                # a decision on config.overwrite whose arm for "overwrite is false" returns an error, whichever way the test is
+                # written (`if not overwrite: return [error]` / `if overwrite: ... else: return [error]`): truth table of the test
+                ow = [a for a in bool_atoms(n.test) if a.endswith("overwrite")] if isinstance(n, ast.If) else []
+                if not ow:
+                    continue
+                rows = [(env, val) for env, val in truth_table(n.test) if not env[ow[0]]]
+                if rows and all(any(isinstance(st, ast.Return) and constructs_error(st.value) for st in (n.body if val else n.orelse))
+                                for _, val in rows):
                     handler_ok = True
     rep.check(handler_ok, "R19.2", "Project.build::existing-directory-decision",
               "an existing output directory does not lead to `return [GeneratorError]` unless config.overwrite", where(build, tr),
@@ -190,23 +205,63 @@ def run(rep: Report, ctx: Any) -> str:
               lhs=[norm(a)[:60] for a in assigns], rhs="forwarded unmodified")
 
     # ---- R19.3 -----------------------------------------------------------------------------------------------------
-    for mname, dname in (("_build_models", "models"), ("_build_api", "api")):
+    def place(av_: Any, dname: str) -> str | None:
+        """'is': the path is <package_dir>/<dname> itself; 'inside': a path below it; None: anything else / unknown"""
+        if av_ is None or not av_.alts:
+            return None
+        got = set()
+        for alt in av_.alts:
+            if len(alt) < 2 or alt[0].kind != "hole" or not alt[0].text.endswith("package_dir") or alt[1].kind != "lit":
+                return None
+            if alt[1].text == f"/{dname}" and len(alt) == 2:
+                got.add("is")
+            elif alt[1].text == f"/{dname}" or alt[1].text.startswith(f"/{dname}/"):
+                got.add("inside")
+            else:
+                return None
+        return "is" if got == {"is"} else "inside"
+
+    rebuilt = (("_build_models", "models"), ("_build_api", "api"))
+    for mname, dname in rebuilt:
         m = proj.methods.get(mname)
         rep.require(m, f"Project.{mname}")
         c2 = cfg_of(m, cfgs)
-        rm = [s for s in c2.stmts() if stmt_calls(s, "rmtree")]
+        # effects on <dname>/, wherever in the region of m they are written (in place or in a helper m calls)
+        removals = {id(e.node) for e, av in real if e.what == "rmtree" and place(av, dname) == "is"}
+        rm = performing(ix, m, lambda c: id(c) in removals, cfgs, must=True)
         rep.check(bool(rm) and c2.every_path_passes(ENTRY, EXIT, lambda n: n in rm), "R19.3", f"Project.{mname}::rmtree-on-every-path",
                   f"{dname}/ is not removed on every path through {mname}: stale modules of an earlier generation survive", where(m, m.node),
                   lhs=[norm(s) for s in rm], rhs="on every path from entry to exit")
         # every write into the directory comes after the rmtree
+        def preceded(f: Any, st: ast.stmt, node: ast.Call, depth: int = 3) -> bool:
+            """statement st of f, at which the write `node` happens, always runs after the removal: a removal dominates it in f, or
+            st calls a helper in which this holds (remove-and-recreate extracted into one helper)"""
+            cf = cfg_of(f, cfgs)
+            rm_f = performing(ix, f, lambda c: id(c) in removals, cfgs, must=True)
+            if cf.is_dominated_by(st, lambda n: n in rm_f):
+                return True
+            if depth <= 0 or any(x is node for x in walk_own(st)):
+                return False
+            callees = {g for g in (callee_of(ix, f, c) for c in walk_own(st) if isinstance(c, ast.Call)) if g is not None and g != f}
+            inner = [(g, s2) for g in callees for s2 in performing(ix, g, lambda c: c is node, cfgs)]
+            return bool(inner) and all(preceded(g, s2, node, depth - 1) for g, s2 in inner)
+
         for e, av in real:
-            if e.func is m and e.what in ("write_text", "mkdir") and av is not None and av.alts and any(
-                    any(p.kind == "lit" and f"/{dname}" in p.text for p in alt) for alt in av.alts):
-                st = next((s for s in c2.stmts() if any(x is e.node for x in ast.walk(s)) and not isinstance(s, (ast.For, ast.If))), None)
-                if st is None:
-                    continue
-                rep.check(c2.is_dominated_by(st, lambda n: n in rm), "R19.3", f"Project.{mname}::{e.what}({norm(e.target)[:30]})",
-                          f"a write into {dname}/ is not preceded by its removal", e.where, lhs=norm(st)[:60], rhs="dominated by rmtree")
+            if e.what in ("write_text", "mkdir") and place(av, dname) is not None:
+                for st in performing(ix, m, lambda c: c is e.node, cfgs):
+                    rep.check(preceded(m, st, e.node), "R19.3", f"Project.{mname}::{e.what}({norm(e.target)[:30]})",
+                              f"a write into {dname}/ is not preceded by its removal", where(m, st), lhs=norm(st)[:60], rhs="dominated by rmtree")
+    # nothing else is ever removed or moved: only the directories that are rebuilt from the document on every run belong to the
+    # generator entirely; everything else in the output location may hold the user's files
+    destructive = {"rmtree", "unlink", "rmdir", "remove", "rename", "replace", "move", "removedirs"}
+    for e, av in real:
+        if e.what in destructive:
+            owned = [d for _, d in rebuilt if place(av, d) is not None]
+            rep.check(bool(owned), "R19.3", f"{short(e.func)}::{e.what}({norm(e.target)[:50]})::rebuilt-directory-only",
+                      f"`{norm(e.node)[:80]}` removes or moves a path that is not (inside) one of the rebuilt directories "
+                      f"{[d for _, d in rebuilt]}: user files in the output location are lost on regeneration", e.where,
+                      lhs=([repr(list(a)) for a in sorted(av.alts, key=repr)][:2] if av is not None and av.alts else norm(e.target)),
+                      rhs="<package_dir>/models or <package_dir>/api (or below)")
     # build() reaches both rebuild steps on every path after the decision
     for mname in ("_build_models", "_build_api"):
         calls = [s for s in cfg.stmts() if stmt_calls(s, f"self.{mname}")]
